@@ -46,23 +46,24 @@ ServerFrame(fin, rsv, op, payload) == Hdr(fin, rsv, op, 0, Len(payload)) \o payl
 (* Decoding at position p (1-based) of a byte sequence s.  Result record:  *)
 (*   ok      the whole frame lies inside s                                 *)
 (*   need    otherwise: how many bytes of s are needed to know more        *)
-(*   huge    declared length does not fit TLC's integers (>= 2^31)         *)
+(*   huge    declared length >= 2^30 (TLC integers are 32 bit)        *)
 (***************************************************************************)
 NoFrame(need, huge) ==
   [ok |-> FALSE, need |-> need, huge |-> huge, fin |-> 0, rsv |-> 0, op |-> 0, masked |-> 0,
    len |-> 0, form |-> 0, key |-> <<>>, payload |-> <<>>, next |-> 0]
 
-Parse(s, p) ==
-  IF Len(s) < p + 1 THEN NoFrame(p + 1, FALSE)
+(* lim = number of bytes of s that are available (bytes beyond lim are not looked at) *)
+ParseL(s, p, lim) ==
+  IF lim < p + 1 THEN NoFrame(p + 1, FALSE)
   ELSE
     LET b1 == s[p]
         b2 == s[p + 1]
         l7 == b2 % 128
         mk == b2 \div 128
         ext == IF l7 = 126 THEN 2 ELSE IF l7 = 127 THEN 8 ELSE 0
-    IN IF Len(s) < p + 1 + ext THEN NoFrame(p + 1 + ext, FALSE)
+    IN IF lim < p + 1 + ext THEN NoFrame(p + 1 + ext, FALSE)
        ELSE
-         LET huge == l7 = 127 /\ (s[p+2] # 0 \/ s[p+3] # 0 \/ s[p+4] # 0 \/ s[p+5] # 0 \/ s[p+6] >= 128)
+         LET huge == l7 = 127 /\ (s[p+2] # 0 \/ s[p+3] # 0 \/ s[p+4] # 0 \/ s[p+5] # 0 \/ s[p+6] >= 64)
              n == IF l7 = 126 THEN s[p+2] * 256 + s[p+3]
                   ELSE IF l7 = 127 /\ ~huge
                        THEN ((s[p+6] * 256 + s[p+7]) * 256 + s[p+8]) * 256 + s[p+9]
@@ -70,7 +71,7 @@ Parse(s, p) ==
              ks == p + 2 + ext            \* first key byte (if masked)
              ps == ks + 4 * mk            \* first payload byte
          IN IF huge THEN NoFrame(0, TRUE)
-            ELSE IF Len(s) < ps + n - 1 THEN NoFrame(ps + n - 1, FALSE)
+            ELSE IF lim < ps + n - 1 THEN NoFrame(ps + n - 1, FALSE)
             ELSE
               LET key == IF mk = 1 THEN SubSeq(s, ks, ks + 3) ELSE <<>>
                   raw == SubSeq(s, ps, ps + n - 1)
@@ -79,6 +80,8 @@ Parse(s, p) ==
                   masked |-> mk, len |-> n, form |-> ext, key |-> key,
                   payload |-> IF mk = 1 THEN XorSeq(key, raw) ELSE raw,
                   next |-> ps + n]
+
+Parse(s, p) == ParseL(s, p, Len(s))
 
 (* All complete frames of a stream, in order, and the position after the last one. *)
 RECURSIVE FramesFrom(_, _)
